@@ -29,17 +29,20 @@ def exhausted(s_) -> bool:
     turns `try: x = next(it) / except StopIteration:` into that shape with the sentinel __EXHAUSTED__; `next(it, None)` followed by `x is None`
     is the same test for a stream that never holds None (the tokenizer yields MSDParameter objects)."""
     from ..normalize import EXHAUSTED
+    defaults = {}
+    for e in s_.effects:
+        if e.kind == "bind" and isinstance(e.target, ast.Name) and isinstance(e.value, ast.Call) and isinstance(e.value.func, ast.Name) and e.value.func.id == "next" and len(e.value.args) == 2:
+            d = e.value.args[1]
+            if isinstance(d, ast.Name) or (isinstance(d, ast.Constant) and d.value is None):
+                defaults[e.target.id] = ast.unparse(d)  # a sentinel object (whatever its name), or None
     for k, v in s_.plain_assign().items():
         if v is not True:
             continue
         if EXHAUSTED in k:
             return True
-        if k.startswith("None is "):
-            nm = k[len("None is "):]
-            for e in s_.effects:
-                if e.kind == "bind" and isinstance(e.target, ast.Name) and e.target.id == nm and isinstance(e.value, ast.Call) and isinstance(e.value.func, ast.Name) and e.value.func.id == "next" \
-                        and len(e.value.args) == 2 and isinstance(e.value.args[1], ast.Constant) and e.value.args[1].value is None:
-                    return True
+        for x, d in defaults.items():
+            if k in (f"{d} is {x}", f"{x} is {d}"):
+                return True
     return False
 
 
@@ -342,6 +345,7 @@ def text_entry_points(ctx: Ctx) -> None:
         "simfile:loads": ("load(StringIO(string), strict=strict)", None),
         "simfile.ssc:SSCChart.from_str": ("OBJ", "OBJ._parse(parse_msd(string=string, ignore_stray_text=not strict))"),
         "simfile.sm:SMChart.from_str": ("OBJ", "OBJ._from_msd(string.split(':'))"),
+        "simfile.sm:SMChart.from_msd": ("OBJ", "OBJ._from_msd(values)"),
     }
     for fq, (ret_w, call_w) in want.items():
         f = p.func(fq)
